@@ -128,7 +128,7 @@ func c20Build(cs *c20Case) (coqKind string) {
 
 // expected verdict of the documented alphabets on the non-ASCII runes the generator uses
 var c20Runes = []struct {
-	r                        rune
+	r                       rune
 	letterDigitHyphen, isPc bool
 }{
 	{'é', true, false}, {'日', true, false}, {'Ω', true, false}, {'٣', true, false} /* arabic-indic digit */, {'‐', true, false}, /* U+2010 hyphen */
